@@ -236,7 +236,48 @@ def r20_5(ctx):
            "reparent_children does not append to the new parent's child list (%s): children it already had are lost or reordered" % (replaces[:1] or "no extend/append found"), "markup5ever_rcdom reparent_children")
 
 
+def r20_6(ctx):
+    """deep clone through a work list: the list is consumed from its end (pop), so every place that puts a node's children on it
+    must do so in reverse - otherwise the clones are appended to their parent in reverse document order at that level"""
+    key, pcs = nfq.cells(ctx, AREA, "::clone_with_subtree")
+    bad = None
+    feeds = 0
+    lifo = fifo = False
+    for pc in nfq.feasible(pcs):
+        for x in nfq.texts(pc):
+            if re.search(r"\.pop\(\)$", x):
+                lifo = True
+            if re.search(r"\.(pop_front\(\)|remove\(0\))$", x):
+                fifo = True
+            for m in re.finditer(r"children\.iter\(\)(\.rev\(\))?", x):
+                if x.startswith("loop-begin for _ in") or ".extend(" in x or ".collect" in x or ".push(" in x:
+                    feeds += 1
+                    rev = m.group(1) is not None
+                    if lifo_needed(rev, x) is False:
+                        pass
+    # decide once the consumption order is known
+    for pc in nfq.feasible(pcs):
+        for x in nfq.texts(pc):
+            if not (x.startswith("loop-begin for _ in") or ".extend(" in x or ".collect" in x):
+                continue
+            for m in re.finditer(r"children\.iter\(\)(\.rev\(\))?", x):
+                rev = m.group(1) is not None
+                if lifo and not fifo and not rev:
+                    bad = "children are put on the work list in document order (%s) while the list is consumed from its end: that level of the copy comes out reversed" % x[:110]
+                if fifo and not lifo and rev:
+                    bad = "children are put on the work list reversed while the list is consumed from its front"
+    if not (lifo or fifo):
+        raise AnchorMissing("clone_with_subtree: no work list consumption (pop / pop_front) found")
+    ctx.ob("R20.6", "deep-clone-preserves-child-order", bad is None and feeds >= 2, bad or "%d feeding sites, all reversed for a list consumed by pop()" % feeds, "rcdom Node::clone_with_subtree")
+
+
+def lifo_needed(rev, x):
+    return None
+
+
 def run(ctx):
+    ctx.rule("R20.6", "clone_with_subtree: children are fed to the LIFO work list in reverse at every site, so the copy keeps document order at every depth")
+    ctx.guard("R20.6", "clone-order", lambda: r20_6(ctx))
     ctx.rule("R20.5", "child vectors are changed only by order-preserving operations; reparent_children appends to the new parent")
     ctx.guard("R20.5", "order", lambda: r20_5(ctx))
     ctx.rule("R20.1", "every function that mutates a children vector writes the parent link of the affected children; a clone does not inherit the original's parent link")
